@@ -13,13 +13,16 @@ ntw = len(glob.glob(os.path.join(root, "twins", "*.diff")))
 twin_note = open(os.path.join(root, "twins", "STATUS.md")).read().strip() if os.path.exists(os.path.join(root, "twins", "STATUS.md")) else ""
 sec9 = """## 9. Independently seeded changes: which checks catch which
 
-Three rounds of twenty sub-agents (one per property) were each given only the
+Four rounds of twenty sub-agents (one per property) were each given only the
 property record and a scratch git worktree of /repo under /tmp - nothing from
 /verif - and asked for changes that break the property through different
 mechanisms, keep the pinned suite at its baseline and need something specific
 to manifest, each with a demonstration program: three per property in the
-first round, four in the second and four in the third (the later rounds were
-also handed the notes of the earlier ones as "already tried"; the third was
+first round, four in each of the second, third and fourth (the later rounds were
+also handed the notes of the earlier ones as "already tried"; the fourth was
+asked to re-read the statement clause by clause for a clause none of the
+eleven earlier changes touches and to look two steps away from the anchors -
+what builds the objects and wires them together at application start; the third was
 asked for code one step away from the anchors - helpers, constructors,
 accessors, facades, sibling classes - for changes spread over two sites, for
 not-quite-equivalent modernisations and for boundary cases; the second got a
@@ -34,7 +37,7 @@ pre-existing failure, demonstration fails with the change and passes without
 it; worktree removed afterwards) and are kept under `/verif/seeded/<ID>-<n>/`
 (`patch.diff`, `demo.py`, `meta.json` with the author's notes on what the
 change needs in order to manifest; n = 1-3 first round, 4-7 second round, 8-11
-third round). One
+third round, 12-15 fourth round). One
 delivery of the second round (`C13-5`) had been swapped with another agent's
 change through the repository-wide `git stash`; the confirmation step caught
 it (the demonstration passed with the patch) and the right diff, which the
@@ -58,7 +61,10 @@ F26, F27) changed code that kept seeds patch; `C15-1` and `C20-8` were
 re-derived on the repaired tree and confirmed again, `C20-6`, `C03-9` and
 `C17-1` could no longer be confirmed (their demonstrations relied on the
 repaired behaviour) and were retired to `seeded/retired/` with the reason in
-their `meta.json`. Now **%d of %d** are reported, %d of them by the check of the very
+their `meta.json`. Fourth round: of its 80 changes 26 were reported by the check
+of their own property, 10 only by a neighbouring property's check and 44 by
+none; the rules of "round 5" below came out of that triage (41 of the 44 are
+reported now, three stay declined - below). Now **%d of %d** are reported, %d of them by the check of the very
 property the change was seeded for (shared rules are instantiated under both
 ids where the property text covers them). Every kept seed that a check
 reports is also part of that check's self-test in the thorough tier (the patch
@@ -78,15 +84,27 @@ Not reported by the property they were seeded for:
 * `C16-2` - `(k * count) %% width` rewritten as `k * (count %% width)`: arithmetic.
 * `C16-8` - the `+ 1` dropped from the number of section rows a progress bar
   clears: arithmetic.
-* `C05-7` - `Config.args_parser` stores the default parser it creates, so
-  all commands of a config share one parser. Declined: for every *sequence* of
-  parses (what C05 quantifies over) a shared `DefaultArgsParser` still behaves
-  like a fresh one, because C05-R1 proves the reset; the demonstration needs
-  two parses that overlap in time (a raw-args object that blocks on an event
-  in another thread). The construct itself - a getter filling in a default
-  while the field is `None` - is an idiom the unchanged tree uses for the
-  command resolver and the style set, so a rule against it would fire on
-  correct code.
+* `C08-13` - a backslash that escapes nothing consumes only itself instead of
+  itself and the next character: which characters a token consists of is the
+  value-level inverse law of quoting (declined in section 5); every structural
+  clause (progress, null-safety, tables) still holds.
+* `C18-13` - `ChoiceQuestion.choices` returns a copy, so the validator checks a
+  snapshot while the prompt prints the live list: it needs the caller to edit
+  the list between constructing and asking the question, and whether a getter
+  should alias or copy is a design choice no clause of the property fixes.
+* `C19-13` - the frame format is looked up in a table keyed by the exact
+  verbosity, which has no DEBUG row: which format string is shown at which level
+  is a value-level table the property does not state.
+
+`C05-7` (and its re-inventions `C02-13`, `C03-14`: `Config.args_parser` keeps
+the default parser it creates, so all commands and threads of a configuration
+share one parser) was declined until round 5 because a rule against "a getter
+that fills in a default" would fire on the command resolver and the style set
+of the unchanged tree. C05-R8 is confined to the one field whose object has
+per-request scratch state (the parser): that field is written by the
+constructor and its setter only. What it decides is the ownership clause; that
+two overlapping parses on one parser actually corrupt each other remains a
+statement about schedules.
 * `C08-7` - one `TokenParser` kept as a class attribute of `StringArgs`:
   reported by C17-R7 (a stateful object created once at class level), not by
   C08: tokenising any single string still gives the right tokens (`parse()`
@@ -217,6 +235,49 @@ against the frame's own file name), C20-R4 (simple mode prints
 `str(exception)`, not a component), C20-R9 (every path into the tokenizer
 passes a handler - found F26), C20-R11 (no empty literal from a method whose
 result is subscripted), C20-R12 (no lossy re-encoding).
+
+Rules added or generalised in round 5 (fourth seeding round; same standard):
+C01-R14 (the parser's own option map is keyed by the long name: a key
+parameter is bound to `.long_name` or to text cut from a `--` token at every
+call site), C01-R15 / C07-R13 (the isinstance arm of a subtype is not pre-empted
+by an arm of its base type that rebinds the value - bool before int), C02-R13
+(an error factory behind `raise f(...)` returns a value on every path), C02-R14
+(nothing but `value is None` and `is_value_required()` governs the
+requires-a-value raise), C02-R15 / C03-R17 / C05-R8 (the field behind
+`Config.args_parser` is written by constructor and setter only), C03-R15 (the
+empty-line arm resolves what `process_default_commands` chose), C03-R16 (the
+CONFIG event is dispatched before the command configuration is read),
+C04-R3 (a second handler call reached through a handler's exceptional edge),
+C04-R16 / C20-R13 (no partial path function - `commonpath`, `relpath`,
+`stat` ... - on a frame's file name outside a handler), C05-R1 (scratch
+containers mutated through a local alias), C06-R11 / C07-R12 (the alias filed is
+the alias measured and validated, not the spelling before the dash was
+removed), C07-R14 (the numeric converters raise only from the handler around
+the builtin conversion), C08-R8 (a constant index is covered by the length
+test in force), C09-R18 / C18-R15 (each effect in `create_io` is governed by
+one switch family), C09-R19 (level predicates are thresholds), C09-R20 (every
+construction of a Command passes the application), C10-R10 (an overriding
+flagged write keeps the parameter positions), C11-R11 (the IO / Output
+facades forward every parameter), C12-R13 (nothing read from the
+configuration before the CONFIG event is used after it), C12-R14 (the
+optional event name is tested against None, not for truthiness), C13-R11 /
+C09-R17 (the consumer of the lazily parsed result is inside the lenient
+window), C14-R10 (cells are wrapped to the column length itself), C14-R11 /
+C17-R13 (a module-level instance is never configured per call), C14-R12 (the
+alignment list is extended exactly when `col >= len`), C14-R13 (an
+instance-level memo is keyed by everything its value is computed from),
+C15-R11 (row-counting loops over the paired content list step by two),
+C15-R12 (the width announced by the environment is not kept in the Terminal),
+C16-R11 (membership decides whether a message exists), C17-R2 (leniency
+switched on by a listener inside the config package is paired too), C17-R14
+(a lazily created class-slot object is published when complete), C17-R15 (no
+class- / module-level container of mutable package instances), C18-R13 (every
+`section()` hands on the Input object itself), C18-R14 (`append` takes the
+read position before it seeks to the end), C19-R1 / C19-R10 (joins of the
+spinner thread are unbounded; the end message is stored whatever it is),
+C20-R14 (the simple arm depends on `simple` alone), C20-R15 (every
+Highlighter is told the output's UTF-8 support; snippet call sites agree),
+C20-R16 (the source is split unstripped).
 
 **Refactor twins (false-alarm test).** Four further rounds of twenty sub-agents,
 again given only a property record and a scratch worktree, each wrote four
